@@ -239,7 +239,8 @@ def finish(run: Run, level_text, assumptions, undecided, extra=None, out=print):
             "id": r.id, "template": r.template, "statement": r.doc.split("\n\n")[0].replace("\n", " ")[:600],
             "obligations": c.obligations, "discharged": c.discharged, "cases": c.evaluations, "paths": c.paths,
             "floor": r.floor,
-            "verdict": "analysis-error" if err else ("violation" if c.violations else "holds"),
+            "verdict": "analysis-error" if err else ("violation" if any(v.rule == r.id for v, _ in new) else
+                                                       ("known-finding" if c.violations else "holds")),
             **({"error": err} if err else {}),
             **({"notes": c.notes} if c.notes else {}),
         })
@@ -289,9 +290,10 @@ def finish(run: Run, level_text, assumptions, undecided, extra=None, out=print):
     with open(os.path.join(ev_dir, f"{prop}.json"), "w") as f:
         json.dump(evidence, f, indent=1)
 
+    new_rules = {v.rule for v, _ in new}
     for r, c, err in run.results:
-        out(f"  {r.id:8s} {r.template:7s} obligations={c.obligations:<5d} cases={c.evaluations:<6d} "
-            f"{'ERROR' if err else ('VIOLATION' if c.violations else 'holds')}")
+        verdict = "ERROR" if err else ("VIOLATION" if r.id in new_rules else ("known-finding" if c.violations else "holds"))
+        out(f"  {r.id:8s} {r.template:7s} obligations={c.obligations:<5d} cases={c.evaluations:<6d} {verdict}")
     seen_known = set()
     for v, k in matched:
         if k["key"] in seen_known:
